@@ -25,6 +25,24 @@ PROPS = {
                 technique="Coq proof (word-level model of util/uint128 proved equal to exact N arithmetic incl. the 128/128 trial-quotient division; lia/nia over the exact floor formula) + differential correspondence in three build configurations",
                 level_text="Theorems over a Gallina transcription of blockchain/difficulty.go (difficultyEMA, the arithmetic of GetNextDifficulty with its uint64 wrap-around, int64 casts, LTTC scaling, clamps and MIN_DIFFICULTY floor), of the util/uint128 operations it uses (Mul64, QuoRem64/Div64, QuoRem/Div, Add, Sub, Cmp: transcribed word by word over math/bits with explicit panic outcomes) and of the proof-of-work target uint128.Max.Div(diff). Proved for every configuration satisfying a boolean side condition (discharged by vm_compute at the constants regenerated from /repo on every run, mainnet/testnet/unittest): result >= MIN_DIFFICULTY and nonzero for all inputs; exact characterisation of the panics; no panic for every height, every difficulty up to 2^100 and all non-decreasing timestamps below 2^63; equality with the exact rational formula rounded down; rise bound next*(N-1) <= prev*N; antitone in the parent timestamp; PoW target (2^128-1)/d defined for every d >= 1. The transcription is compared with the real Go functions (GetNextDifficulty itself over a map-backed store, difficultyEMA through an add-only hook, uint128 methods, ValidPowValue, util.GetTarget) on the DESIGN grid and random inputs in all three builds; the property predicate (with the exact formula recomputed in unbounded integers) is also evaluated on Go's own outputs.",
                 level_note="Trusted: Coq kernel, paramdump translator, Gallina printer; math/bits primitives (Mul64, Add64, Sub64, Div64, LeadingZeros64, shifts) are modelled by their documented semantics; the model is hand-written and tied to the code by the correspondence run (about 10 800 cases per quick run, 100 000 per thorough run, including both sides panicking at the Mul64 overflow edge and at the zero denominator). Two statements are refuted, not weakened: util.GetTarget panics when the low 64 bits of the difficulty are zero (witness 2^64) and ignores the high word; with decreasing timestamps the retarget panics or jumps by N*T. No axioms."),
+    "C20": dict(configs=["mainnet", "unittest"], harness="pure", family="c20",
+                check_mods=["Lib.Pack", "Check.C20"], corr="c20_bad_corr", prop="c20_bad_prop",
+                assumptions=["a block is abstracted to (height, validity of its proof of work, hash); the proof-of-work function itself and BLAKE3 are not modelled",
+                             "entry i of the embedded data pins height (i+1)*interval (the format written by create_checkpoints); that the entries are the hashes of the real mainnet blocks is outside the property",
+                             "'pins it through the hash chain' relies on the parent-hash check of block validation (C05), not proved here"],
+                technique="Coq proof (linear arithmetic over the table shape, explicit uint64 wrap-around and slice-bound panics) + exhaustive differential sweep of all heights",
+                level_text="Theorems over the Gallina transcription of checkpoints.go / checkpoints_testnet.go (IsSecured, IsCheckpoint, GetCheckpoint with its uint64 index arithmetic and slice-bounds panic) and of the last branch of PrevalidateBlock, for every height, parametric in the configuration; the side condition (table shape, no overflow, digest of the embedded data equals the declared one) is discharged by vm_compute at the constants regenerated from /repo on every run. The Go functions are run on every height 0..(count+3)*interval (exhaustive, shipped to Coq as bitmaps), on boundary/special/random heights up to 2^64-1, and PrevalidateBlock itself on blocks without valid proof of work around every class boundary; model and property predicate are evaluated on each observation, the predicate against the embedded data only.",
+                level_note="Trusted: Coq kernel, paramdump translator (computes the BLAKE3 digest comparison), Gallina printer and bitmap packing of the harness; the model is hand-written and tied to the code by the correspondence run. The digest clause is a computed fact (cp_digest_ok), not a Coq theorem about BLAKE3. No axioms. R2 and R3 were found by this check and are fixed in /repo (KNOWN_FINDINGS.json); their witnesses run on every check."),
+    "C16": dict(configs=["testnet", "unittest"], harness="pure", family="c16",
+                check_mods=["Lib.Pack", "Check.C16"], corr="c16_bad_corr", prop="c16_bad_prop",
+                assumptions=["hashes are symbolic: Block.Hash identifies what Block.Serialize writes and the hashing-id hash identifies (base hash, ancestors); both are explicit premises of C16_blob_commits* (BLAKE3 collision-freeness and injectivity of the encoders, the latter is C13's subject), not axioms",
+                             "'the proof of work verifies' is read as: the block's own mining blob is byte-for-byte the blob that was mined (the proof-of-work function is applied to those bytes; RandomVirel itself is not modelled)",
+                             "a blob whose entry for this network carries another hash is not refused by setMiningBlob; it is never credited because the block's own blob then differs (C16_accept_needs_own_hid)",
+                             "the blob commits to OtherChains only up to their order: open finding C16-otherchains-order (consensus-rule change), reported as KNOWN-FINDING on every run",
+                             "slices.SortFunc is modelled by insertion sort with a panic on equal network ids; the result of any comparison sort is the same (unique strictly ascending arrangement, panic iff a network id repeats) and is compared with Go's on every run"],
+                technique="Coq proof (induction over the chain list with the loop state generalised, uniqueness of strictly sorted permutations, symbolic hashing with injectivity premises) + differential correspondence through a build-tag hook",
+                level_text="Theorems over the Gallina transcription of block.setMiningBlob, SortOtherChains, BaseHash's field mask, Commitment.HashingID and Commitment.MiningBlob, for every block, every chain list of any length (so every set of 0..15 other chains, any network ids, any position of this chain's id, every permutation or duplication) and any hash type with a decidable equality; parametric in the configuration (only network_id is used). setMiningBlob is characterised exactly (succeeds iff strictly sorted, contains this network, other chains pairwise distinct; then keeps all other chains and only writes timestamp, nonces and OtherChains), and a valid blob is proved to be reconstructed to the very blob that was mined. The transcription is compared with the Go functions (hook VerifSetMiningBlob) on about 1 300 blobs per configuration: valid ones for 0..17 other chains around this chain's id, permutations, duplications, missing/foreign/doubled own entry; with the two sorts on shuffled/sorted/duplicate lists, and with BaseHash/HashingID/MiningBlob/Hash equalities on pairs of blocks differing in each single field. The property predicate is evaluated on Go's own outputs, including that computing the blob leaves the block intact.",
+                level_note="Trusted: Coq kernel, paramdump translator, Gallina printer (chain lists packed 11 bytes per entry, 32-byte values renumbered densely by the harness); the model is hand-written and tied to the code by the correspondence run; Go slice aliasing is outside the functional model and is covered by the harness observation 'block intact after MiningBlob' only. blob_commits holds up to the order of OtherChains (full statement refuted in Coq: C16_blob_commits_full_refuted; open finding). No axioms. R1 and three further defects of the same functions were found by this check and are fixed in /repo; their witnesses run on every check."),
 }
 
 HIST_MODS = ["Model.Ledger", "Model.Node", "Check.Hist"]
